@@ -1,6 +1,7 @@
 use core::cell::RefCell;
 use core::num::NonZeroU32;
 
+use alloc::collections::BTreeSet;
 use alloc::vec::Vec;
 
 use crate::errors::{DaachorseError, Result};
@@ -57,6 +58,8 @@ pub struct NfaBuilder<L, V> {
     pub(crate) outputs: Vec<Output<V>>, // in which common parts are merged.
     pub(crate) len: usize,
     pub(crate) match_kind: MatchKind,
+    // Patterns skipped in the leftmost-first mode, kept only to report duplicates.
+    shadowed: BTreeSet<Vec<L>>,
 }
 
 impl<L, V> NfaBuilder<L, V>
@@ -73,6 +76,7 @@ where
             outputs: vec![],
             len: 0,
             match_kind,
+            shadowed: BTreeSet::new(),
         }
     }
 
@@ -90,9 +94,13 @@ where
         for &c in pattern {
             if self.match_kind.is_leftmost_first() {
                 // If state_id has an output, the descendants will never searched.
-                let output = &self.states[usize::from_u32(state_id)].borrow().output;
-                if output.is_some() {
-                    return Ok(());
+                let shadowed = self.states[usize::from_u32(state_id)]
+                    .borrow()
+                    .output
+                    .is_some();
+                if shadowed {
+                    // The pattern is never reported, but duplicates must still be rejected.
+                    return self.check_shadowed_duplicate(pattern);
                 }
             }
 
@@ -223,6 +231,21 @@ where
                 s.output_pos = self.states[usize::from_u32(s.fail)].borrow().output_pos;
             }
         }
+    }
+
+    /// Returns an error if the shadowed `pattern` was already given, either as a registered
+    /// pattern or as another shadowed one.
+    fn check_shadowed_duplicate(&mut self, pattern: &[L]) -> Result<()> {
+        let registered = pattern
+            .iter()
+            .try_fold(ROOT_STATE_ID, |state_id, &c| self.child_id(state_id, c))
+            .map_or(false, |state_id| {
+                self.states[usize::from_u32(state_id)].borrow().output.is_some()
+            });
+        if registered || !self.shadowed.insert(pattern.to_vec()) {
+            return Err(DaachorseError::duplicate_pattern(format!("{pattern:?}")));
+        }
+        Ok(())
     }
 
     #[inline(always)]
